@@ -1188,6 +1188,112 @@ func runBurst(k int, sc Scn, r *vh.Rand) (res Res) {
 	return res
 }
 
+// runMulti: one Server with sc.Pairs Listeners on distinct ports (optionally a registered client
+// on the first one), closed by Server.Close (9), by cancelling the Server's context (3) or by
+// Listener.Close of every Listener in a random order, concurrently or one after the other
+// (10), followed by Server.Close.
+func perm(r *vh.Rand, n int) []int {
+	p := make([]int, n)
+	for i := range p {
+		p[i] = i
+	}
+	for i := n - 1; i > 0; i-- {
+		j := r.Intn(i + 1)
+		p[i], p[j] = p[j], p[i]
+	}
+	return p
+}
+func runMulti(k int, sc Scn, r *vh.Rand) (res Res) {
+	res.K, res.Returned, res.Extra = k, true, map[string]int{}
+	fail := func(what, key string) { res.Fails = append(res.Fails, failRec{what, key}) }
+	base := runtime.NumGoroutine()
+	ctx, cancel := context.WithCancel(context.Background())
+	srv := c2.NewServerContext(ctx, logx.NOP)
+	srv.Keys.Fill()
+	var ls []*c2.Listener
+	for i := 0; i < sc.Pairs; i++ {
+		l, err := srv.Listen(fmt.Sprintf("c16m%d", i), "127.0.0.1:0", cfg.Static{L: com.TCP})
+		if err != nil {
+			panic("listen: " + err.Error())
+		}
+		ls = append(ls, l)
+		time.Sleep(2 * time.Millisecond) // Listen calls in quick succession are another matter (see notes)
+	}
+	var c *c2.Session
+	if sc.Cbk {
+		old := local.UUID
+		local.UUID = newID(r)
+		var err error
+		c, err = c2.Connect(logx.NOP, cfg.Static{C: com.TCP, H: ls[0].Address(), S: time.Duration(sc.SleepMs) * time.Millisecond})
+		id := local.UUID
+		local.UUID = old
+		if err != nil {
+			panic("connect: " + err.Error())
+		}
+		for i := 0; i < 300 && srv.Session(id) == nil; i++ {
+			time.Sleep(time.Millisecond)
+		}
+	}
+	for pi, ph := range sc.Phases {
+		var wg sync.WaitGroup
+		for _, code := range ph {
+			switch code {
+			case cSrvClose:
+				wg.Add(1)
+				go func() { defer wg.Done(); srv.Close() }()
+			case cCtxCancel:
+				cancel()
+			case cLsnClose:
+				for _, i := range perm(r, len(ls)) {
+					if sc.Variant == "concurrent" {
+						wg.Add(1)
+						go func(l *c2.Listener) { defer wg.Done(); l.Close() }(ls[i])
+					} else {
+						wg.Add(1)
+						func(l *c2.Listener) { defer wg.Done(); l.Close() }(ls[i])
+					}
+				}
+			}
+		}
+		done := make(chan struct{})
+		go func() { wg.Wait(); close(done) }()
+		if !waitCh(done, 3*time.Second) {
+			res.Returned = false
+			fail(fmt.Sprintf("a close call of phase %d %v on a Server with %d Listeners did not return within 3 s", pi, ph, sc.Pairs), "multi-listener-close-hang")
+			break
+		}
+		time.Sleep(time.Duration(10*sc.SleepMs) * time.Millisecond)
+	}
+	if res.Returned {
+		for i, l := range ls {
+			if !waitCh(l.Done(), time.Second) {
+				fail(fmt.Sprintf("Listener %d of %d: Wait/Done not released after the teardown %v", i, sc.Pairs, sc.Phases), "multi-listener-wait")
+				break
+			}
+		}
+		if !waitCh(srv.Done(), 2*time.Second) {
+			fail(fmt.Sprintf("Server.Wait/Done not released after the teardown %v of a Server with %d Listeners", sc.Phases, sc.Pairs), "multi-server-wait")
+		}
+	}
+	cancel()
+	cl := make(chan struct{})
+	go func() {
+		if c != nil {
+			c.Close()
+		}
+		srv.Close()
+		close(cl)
+	}()
+	if !waitCh(cl, 4*time.Second) {
+		fail(fmt.Sprintf("clean-up of a Server with %d Listeners did not return within 4 s", sc.Pairs), "multi-cleanup-hang")
+		res.Returned = false
+	}
+	if n := settleGoroutines(base, 2*time.Second); n > base && res.Returned {
+		fail(fmt.Sprintf("goroutines did not return to the baseline after the teardown of %d Listeners: %d > %d", sc.Pairs, n, base), "goroutine-baseline-multi")
+	}
+	return res
+}
+
 // ---------------------------------------------------------------- scenario generation
 
 var instants = []string{"registered", "idle", "queued-client", "queued-server", "queued-both", "fragments", "mid-exchange"}
@@ -1267,6 +1373,14 @@ func gen(r *vh.Rand, tier string) []Scn {
 		add(Scn{Kind: "proxy", Instant: "proxy", Chm: chm, Cbk: true, Phases: [][]int{{cProxyClose}, {cClientClose}}})
 		add(Scn{Kind: "proxy", Instant: "proxy", Chm: chm, Cbk: true, Phases: [][]int{{cCtxCancel}}})
 	}
+	for _, n := range []int{2, 3, 5, 20} {
+		add(Scn{Kind: "multi", Instant: "listeners", Pairs: n, Phases: [][]int{{cSrvClose}}})
+		add(Scn{Kind: "multi", Instant: "listeners", Pairs: n, Phases: [][]int{{cCtxCancel}}})
+		add(Scn{Kind: "multi", Instant: "listeners", Pairs: n, Cbk: n < 20, Phases: [][]int{{cLsnClose}, {cSrvClose}}})
+		add(Scn{Kind: "multi", Instant: "listeners", Pairs: n, Variant: "concurrent", Cbk: n < 20, Phases: [][]int{{cLsnClose, cSrvClose}}})
+	}
+	add(Scn{Kind: "multi", Instant: "listeners", Pairs: 3, Cbk: true, Phases: [][]int{{cSrvClose, cSrvClose}}})
+	add(Scn{Kind: "multi", Instant: "listeners", Pairs: 5, Cbk: true, Phases: [][]int{{cCtxCancel}, {cSrvClose}}})
 	add(Scn{Kind: "replace-storm", Instant: "listener", Pairs: 40})
 	add(Scn{Kind: "fresh", Variant: "never-listened", Phases: [][]int{{cSrvClose}}})
 	add(Scn{Kind: "fresh", Variant: "never-listened", Phases: [][]int{{cSrvClose, cSrvClose, cSrvClose, cSrvClose}, {cSrvClose}}})
@@ -1416,6 +1530,8 @@ func childMain(file string, from int, seed uint64) {
 			res = runFresh(k, scs[k], r)
 		} else if scs[k].Kind == "replace" {
 			res = runReplace(k, scs[k], r)
+		} else if scs[k].Kind == "multi" {
+			res = runMulti(k, scs[k], r)
 		} else if scs[k].Kind == "proxy" {
 			res = runProxy(k, scs[k], r)
 		} else if scs[k].Kind == "replace-storm" {
@@ -1617,6 +1733,9 @@ func main() {
 			return true
 		}() {
 			out.Add(fmt.Sprintf("CLsn %s %s %s %s", phasesCoq(sc.Phases), coqBool(res.Panic), coqBool(res.Returned), vh.ZList64(res.Final)), classOf(sc), nontrivial, desc)
+		} else if sc.Kind == "multi" && len(sc.Phases) == 1 && len(sc.Phases[0]) == 1 && sc.Phases[0][0] != cLsnClose {
+			// Server.Close / context cancel with n Listeners: did the whole teardown finish?
+			out.Add(fmt.Sprintf("CMulti %s %s", vh.Z(int64(sc.Pairs)), coqBool(res.Returned && len(res.Fails) == 0)), classOf(sc), true, desc)
 		} else if sc.Kind == "stress" && res.Returned && sc.Variant != "chanwake" && sc.Variant != "burst" {
 			// the model runs one racing group (the calls of the variant) under the round-robin schedule
 			calls := map[string][]int64{"pair": {7, 7}, "quad": {7, 7, 7, 7}, "close-vs-shutdown": {7, 4}}[sc.Variant]
